@@ -23,6 +23,8 @@ RULES13 = ['InverseBinaryRule', 'BlockRowBlockDiagonalRule', 'BlockDiagonalBlock
            'LinearPolarizerHWPRule']
 
 PLAN = {
+    'C06': _p(quick=50, thorough=2000),
+    'C15': _p(quick=180, thorough=4000),
     'C09': _p(quick=16, thorough=500, qbudget=80, tbudget=2400,
               required_classes={'all': ['partial_last_block', 'multi_block', 'K>n', 'K=1', 'fft=2K-1', 'broadcast_band',
                                         'default_fft', 'batched']},
